@@ -82,7 +82,8 @@ def build(spec):
         if v[0] == "tuple_f":
             return tuple(float(i) for i in v[1])
         return {"int": int, "float": float, "bool": bool, "npint": np.int64, "tuple": tuple, "list": list}[v[0]](v[1])
-    return [arg(a) for a in spec["args"]], {k: val(v) for k, v in spec["kwargs"].items()}
+    order = spec.get("kw_order") or list(spec["kwargs"])          # the order in which the caller writes the keywords
+    return [arg(a) for a in spec["args"]], {k: val(spec["kwargs"][k]) for k in order}
 
 
 def alpha(text):
@@ -112,6 +113,16 @@ def execute(spec):
         # one adapted function per numpy function and process, as a program would keep it
         fn = _ADAPTED.get(spec["fn"]) or _ADAPTED.setdefault(spec["fn"], einx.numpy.adapt_numpylike_reduce(getattr(np, spec["fn"][6:])))
         kw.pop("backend", None)
+    elif spec["fn"] == "where:keywords":
+        # einx.where with its two value tensors passed by keyword, in the order the spec says
+        vals = {"x": args[1], "y": args[2]}
+        args = args[:1]
+        kw = {**{k: vals[k] for k in spec["tensor_kw_order"]}, **kw}
+        fn = einx.where
+    elif spec["fn"] == "adaptel:two_options":
+        fn = _ADAPTED.get(spec["fn"]) or _ADAPTED.setdefault(
+            spec["fn"], einx.numpy.adapt_numpylike_elementwise(lambda x, y, *, scale=1.0, offset=0.0: x * scale + y + offset))
+        kw.pop("backend", None)
     elif spec["fn"] == "adaptel:copysign":
         # an adapted element-wise function with a keyword-only option whose SIGN matters (0.0 == -0.0 in Python)
         fn = _ADAPTED.get(spec["fn"]) or _ADAPTED.setdefault(
@@ -134,7 +145,13 @@ def execute(spec):
                 b.__enter__()
             for b in reversed(inner):
                 b.__exit__(None, None, None)
-            r = fn(spec["desc"], *args, **kw)
+            if spec.get("warnings_as_errors"):
+                import warnings
+                with warnings.catch_warnings():
+                    warnings.simplefilter("error")          # a failure whose cause is not part of any cache key
+                    r = fn(spec["desc"], *args, **kw)
+            else:
+                r = fn(spec["desc"], *args, **kw)
         finally:
             for b in reversed(blocks):
                 b.__exit__(None, None, None)
@@ -276,6 +293,39 @@ def signed_zero_history(rng):
     g = rng.random() < 0.3
     return [{"fn": "adaptel:copysign", "desc": "a, a -> a", "args": [("arr", x.tolist(), "float64"), ("arr", x.tolist(), "float64")],
              "kwargs": {"s": ("float", v)}, "graph": g, "backend": None, "blocks": []} for v in vals]
+
+
+def keyword_order_history(rng):
+    """the same call with its keyword options written in another order (a dict of keywords compares equal whatever its order): the
+    result and the graph=True text are those of a first call"""
+    x = np.arange(1, 4).astype("float64")
+    orders = [["scale", "offset"], ["offset", "scale"]]
+    rng.shuffle(orders)
+    g = True
+    return [{"fn": "adaptel:two_options", "desc": "a, a -> a", "args": [("arr", x.tolist(), "float64"), ("arr", x.tolist(), "float64")],
+             "kwargs": {"scale": ("float", 2.0), "offset": ("float", 3.0)}, "kw_order": o, "graph": g, "backend": None, "blocks": []} for o in orders + [orders[0]]]
+
+
+def where_keyword_history(rng):
+    """tensors passed by keyword, written in another order than in an earlier call of the same signature"""
+    n = rng.choice([3, 4])
+    cond = [bool(rng.getrandbits(1)) for _ in range(n)]
+    a, b = list(range(1, n + 1)), [10 * v for v in range(1, n + 1)]
+    orders = [["x", "y"], ["y", "x"]]
+    rng.shuffle(orders)
+    return [{"fn": "where:keywords", "desc": "i, i, i -> i", "args": [("arr", cond, "bool"), ("arr", a, "int64"), ("arr", b, "int64")], "kwargs": {},
+             "tensor_kw_order": o, "graph": False, "backend": None, "blocks": []} for o in orders + [orders[0]]]
+
+
+def transient_failure_history(rng):
+    """a call that fails for a reason outside its arguments (warnings turned into errors while it is traced), then the same call
+    under normal conditions: "a call that raised leaves no trace that alters later calls" """
+    a, b = rng.choice([2, 3]), rng.choice([2, 4])
+    x = np.arange(a * b).reshape(a, b)
+    op = rng.choice(["sum", "max", "prod"])
+    base = {"fn": op, "desc": "a [b]", "args": [("arr", x.tolist(), "int64")], "kwargs": {"keepdims": ("bool", True)}, "graph": False, "backend": None, "blocks": []}
+    # (a deprecation warning is issued while a call is traced, i.e. once per signature: the failing call comes first)
+    return [dict(base, warnings_as_errors=True), dict(base), dict(base, graph=True)]
 
 
 def gen_history(rng):
@@ -467,6 +517,9 @@ def run(ctx):
     hs += [adapter_history(ctx.rng) for _ in range(3 if ctx.tier == "quick" else 40)]
     hs += [typed_scalar_history(ctx.rng) for _ in range(4 if ctx.tier == "quick" else 40)]
     hs += [signed_zero_history(ctx.rng) for _ in range(2 if ctx.tier == "quick" else 8)]
+    hs += [keyword_order_history(ctx.rng) for _ in range(3 if ctx.tier == "quick" else 10)]
+    hs += [where_keyword_history(ctx.rng) for _ in range(3 if ctx.tier == "quick" else 10)]
+    hs += [transient_failure_history(ctx.rng) for _ in range(3 if ctx.tier == "quick" else 10)]
     keys = {}
 
     def alone(sp):
